@@ -13,6 +13,11 @@ set_option linter.unusedVariables false
 namespace KinModel.Gen3
 
 /-! ### how failures travel -/
+theorem finishR_nf {b : Bool} {t : GoType} {r : R × St} (h : r.1 ≠ .nofuel) : (finishR b t r).1 ≠ .nofuel := by
+  unfold finishR; split
+  · exact h
+  · obtain ⟨x, σ⟩ := r
+    cases x <;> simp_all [finish]
 theorem finish_nf {t : GoType} {r : R × St} (h : r.1 ≠ .nofuel) : (finish t r).1 ≠ .nofuel := by
   obtain ⟨x, σ⟩ := r
   cases x <;> simp_all [finish]
@@ -255,7 +260,7 @@ theorem pr_of_pb {k : Nat} {t : GoType} (h : PB Δ o k (stripPtr t)) : ∀ ps, u
     · split
       · simp
       · rename_i hnp
-        apply finish_nf
+        apply finishR_nf
         apply h
         · -- level after pushing the type
           cases hb : stripPtr t with
@@ -296,7 +301,7 @@ theorem recs_nf (m : Bool) (ps : List GoType) (top : Bool) (nm : String) (nl : B
     · simp
     · split
       · simp
-      · apply finish_nf
+      · apply finishR_nf
         exact body2 _ _ _ _ (by simp [inParents_append, stripPtr, GoType.beq])
   simp only [genBody]
   apply custom_nf
